@@ -227,6 +227,7 @@ class UnitResult:
         self.demoted = None            # reason string when the unit left the supported subset
         self.error = None              # engine crash (traceback)
         self.case_cover = {}
+        self.code = {}                 # qualname -> fingerprint of the function bodies the unit executed
         self.seconds = 0.0
         self.solver_seconds = 0.0
         self.source = ""
@@ -344,6 +345,7 @@ def verify_unit(loader, contract, registry, timeout_ms=20000, max_paths=MAX_PATH
             break
         finally:
             res.solver_seconds += E.solver_seconds
+            res.code.update(E.executed)
         res.obligations.extend(E.obligations)
     res.seconds = time.time() - t0
     return res
@@ -400,6 +402,11 @@ def run_path(E, contract, fn, res):
         res.case_cover[c.name] = res.case_cover.get(c.name, 0) + 1
         E.solver.push()
         nfacts = len(E.facts)
+        # the contracts memoise which unfoldings / lemma instances they have already added in E.ghost; the facts of
+        # one case are withdrawn before the next case is checked, so the memo must be withdrawn with them
+        ghost_saved = {k: (list(v) if isinstance(v, list) else dict(v) if isinstance(v, dict) else
+                           set(v) if isinstance(v, set) else v) for k, v in E.ghost.items()}
+        kt_saved = list(E.keccak_terms)
         try:
             E.assume(c.when)
             check_case(E, short, c, ctx, outcome)
@@ -407,6 +414,9 @@ def run_path(E, contract, fn, res):
             del E.facts[nfacts:]
             del E.fact_small[nfacts:]
             E.solver.pop()
+            E.ghost.clear()
+            E.ghost.update(ghost_saved)
+            E.keccak_terms[:] = kt_saved
 
 
 def check_case(E, short, c, ctx, outcome):
@@ -640,6 +650,7 @@ class Lemma:
                 break
             finally:
                 res.solver_seconds += E.solver_seconds
+                res.code.update(E.executed)
             res.obligations.extend(E.obligations)
         res.seconds = time.time() - t0
         return res
